@@ -167,6 +167,16 @@ func genHistory(r *hx.Rand, idx int, tier, mode string) *hx.Case {
 		ops = append(ops, hx.Op(o))
 		n = n2
 		wm = 0
+		if mode == "c06" && n2 >= 2 && r.Chance(1, 3) {
+			// some events, then one operator lets go of the old tables it shares with its neighbours while their
+			// NeedsTable answers are: real / RPC error / cancelled on the neighbour's side / slow
+			genEvents(r, &ops, nkeys, r.Range(0, 6), &val, &wm, 0)
+			modes := make([]int, n2)
+			for i := range modes {
+				modes[i] = hx.Pick(r, []int{0, 1, 2, 2, 3})
+			}
+			ops = append(ops, hx.Op(op{Op: "release", N: r.Intn(n2), Perm: modes}))
+		}
 		genEvents(r, &ops, nkeys, r.Range(0, 30), &val, &wm, 0)
 	}
 	// final probe of every key and final watermark
